@@ -3,6 +3,8 @@ oracle kind derived from the docstring's wording ('tight' / 'upper') and the ass
 (DESIGN.md Appendix B).  kind: 'tight' -> |wc - theory| <= 1e-3 * theory ; 'upper' -> wc <= theory * (1 + 1e-3) ;
 'abs' -> |wc - theory| <= 1e-3 * (1 + |theory|)  (potential / continuous-time examples whose theory value is 0 or O(1)).
 """
+import math
+
 from hypothesis import strategies as st
 
 Ls = st.sampled_from([1, 0.5, 0.75, 2, 3, 1.5])
@@ -27,7 +29,7 @@ def L_mu(draw, **extra):
 @st.composite
 def L_gamma(draw, upto=1.0, **extra):
     L = draw(Ls)
-    d = {"L": L, "gamma": round(draw(frac) * upto / L, 6)}
+    d = {"L": L, "gamma": math.floor(draw(frac) * upto / L * 1e6) / 1e6}      # rounded DOWN: never above the documented limit
     for k, s in extra.items():
         d[k] = draw(s)
     return d
@@ -36,7 +38,7 @@ def L_gamma(draw, upto=1.0, **extra):
 @st.composite
 def L_mu_gamma(draw, upto=1.9, **extra):
     L = draw(Ls)
-    d = {"L": L, "mu": round(L * draw(ratio), 6), "gamma": round(draw(frac) * upto / L, 6)}
+    d = {"L": L, "mu": round(L * draw(ratio), 6), "gamma": math.floor(draw(frac) * upto / L * 1e6) / 1e6}
     for k, s in extra.items():
         d[k] = draw(s)
     return d
